@@ -46,6 +46,7 @@ FORMULAS = [
     "y ~ 0 + s*h + (0 + s | g)",
     "y ~ I(center(x) ** 2):h + standardize(w) + (scale(x) | g:g2)",
     "y ~ hlp.f(x) + fun(z) + s",
+    "y ~ center(xz) + scale(xz):h + (1 | g2) + (standardize(xz) | g)",  # xz has mean exactly 0; g2 is evaluated before g
 ]
 MODES = ["error", "warning", "silent"]
 LV_K = [10, 3, 7]
@@ -149,6 +150,10 @@ def make_frames():
             "k": np.array(col(k_lv), dtype=int),
             "unused": np.full(n, np.nan),
         })
+        half = np.arange(1, n // 2 + 1, dtype=float)
+        xz = np.concatenate([-half, half] + ([np.zeros(1)] if n % 2 else []))
+        rng.shuffle(xz)
+        df["xz"] = xz if j != 2 else xz + 1.0  # exactly zero mean, except in frame 2
         if j == 1:
             df.index = pd.Index([f"r{i}" for i in range(n)][::-1])
         out.append(df)
@@ -518,7 +523,7 @@ def enum_histories(maxlen, nf, nd):
             yield from rec([("B", f, d)], 1)
 
 
-QUICK_F = [0, 2, 5, 6]  # indices into FORMULAS used by the exhaustive part
+QUICK_F = [0, 2, 6, 7]  # indices into FORMULAS used by the exhaustive part
 QUICK_D = [0, 2, 3]
 
 
